@@ -50,6 +50,9 @@ type spec struct {
 	alt func(p *prep) []signerSet
 	// never: argument lists nobody is entitled to (a Null party): inert under every signer set, the sufficient one included
 	never func(p *prep) [][]any
+	// unauth: further argument lists for which the requirement is the same; run under the insufficient signer sets
+	// only, where they must be as inert as the main list (e.g. a transfer whose receiver is the present owner)
+	unauth func(p *prep) [][]any
 }
 
 func adminAlone(p *prep) []signerSet {
@@ -92,6 +95,9 @@ var table = map[string]spec{
 		// ... and the contract's own address as the holder: nobody carries its witness (funded in the prepared world)
 		return [][]any{{nil, p.u1.ScriptHash(), int64(5), nil}, {p.u0.ScriptHash(), nil, int64(5), nil}, {nil, nil, int64(5), nil},
 			{p.w.H("balance"), p.u1.ScriptHash(), int64(5), nil}, {p.w.H("balance"), p.w.H("balance"), int64(0), nil}}
+	}, unauth: func(p *prep) [][]any {
+		// to the holder itself, and nothing at all: still the holder's to ask for
+		return [][]any{{p.u0.ScriptHash(), p.u0.ScriptHash(), int64(5), nil}, {p.u0.ScriptHash(), p.u1.ScriptHash(), int64(0), nil}, {p.u0.ScriptHash(), p.u0.ScriptHash(), int64(0), nil}}
 	}},
 	"balance.transferX/4": {kind: kAlphabet, args: func(p *prep) []any { return []any{p.u0.ScriptHash(), p.u1.ScriptHash(), int64(5), []byte{1}} }},
 	"balance.update/3":    updateSpec("balance", kMajority),
@@ -190,6 +196,9 @@ var table = map[string]spec{
 	"nns.setRecord/4": {kind: kKey, alt: adminAlone, key: func(p *prep) *keys.PrivateKey { return p.u0k }, args: func(p *prep) []any { return []any{"own.com", int64(16), int64(0), "changed"} }},
 	"nns.transfer/3": {kind: kKey, falseOnRefusal: true, extra: adminInsufficient, key: func(p *prep) *keys.PrivateKey { return p.u0k }, args: func(p *prep) []any {
 		return []any{p.u1.ScriptHash(), "own.com", nil}
+	}, unauth: func(p *prep) [][]any {
+		// to the present owner itself: nothing would change hands, it still takes the owner to say so (seeded change C03-8)
+		return [][]any{{p.u0.ScriptHash(), "own.com", nil}, {p.u0.ScriptHash(), "own.com", []byte("data")}}
 	}},
 	"nns.update/3": updateSpec("nns", kMajority),
 	"nns.updateSOA/6": {kind: kKey, key: func(p *prep) *keys.PrivateKey { return p.u0k }, args: func(p *prep) []any {
@@ -350,6 +359,23 @@ func runMethod(b *runner.Batch, n int, art, method string, arity int, s spec) {
 			}
 		}
 		b.Hit("null-party-argument-lists")
+	}
+	if s.unauth != nil {
+		for ai, args := range s.unauth(p) {
+			for _, ss := range sets {
+				if ss.sufficient || p.pre[ss.label] != nil {
+					continue
+				}
+				r := p.w.Invoke(ss.signers, h, method, args...)
+				b.Tx(1)
+				if !(r.Rejected != "" || r.Faulted() || (r.Halted() && r.Diff.Empty() && len(r.Events) == 0 && tokenMoves(p.w, r) == 0 && !(s.falseOnRefusal && !isFalse(r)))) {
+					b.Violation(fmt.Sprintf("%s with further argument list #%d under the insufficient signer set '%s' changed state, moved tokens, notified or reported success", key, ai, ss.label),
+						map[string]any{"method": key, "signers": ss.label, "committee": n, "tx": p.w.RenderResult(r, true)})
+				}
+				b.Eval(fmt.Sprintf("%s|unauth%d|%s|%s|n%d", key, ai, ss.label, r.State, n), true)
+			}
+		}
+		b.Hit("further-argument-lists-under-insufficient-sets")
 	}
 	// insufficient sets first (they must leave the prepared state untouched), sufficient ones last
 	rank := func(x signerSet) int {
